@@ -240,6 +240,79 @@ def _transform_inline(R, f):
         R.violation("C04.transform", "extract_result_rows_by_column|no-values-loop", "no per-group push of aggregate values found", [f.loc()])
 
 
+def _having_scopes(R, acc):
+    """C04.having-scope: in the row HAVING is evaluated on, the GroupKey scope holds parts of this group's key and nothing else (an
+    aggregate's value under a key column's name would be compared instead of the key), the GroupValue scope holds this group's
+    aggregate values"""
+    rid = "C04.having-scope"
+    R.rule(rid, "accept_group fills the column scope GroupKey only from the group's key (`group_key.0[i]`) and the scope GroupValue only "
+                "from the group's aggregate values: a name in HAVING resolves to the group's own key, whatever the select list calls its columns")
+    def root(f, op):
+        pl, n = op.get("pl"), 0
+        while pl is not None and n < 8:
+            n += 1
+            defs = [st for _, st in F._assign_defs(f).get(pl["l"], []) if not st["pl"]["p"]]
+            if len(defs) == 1 and defs[0]["rv"]["k"] == "use" and defs[0]["rv"]["op"].get("pl") is not None:
+                pl = defs[0]["rv"]["op"]["pl"]
+            elif len(defs) == 1 and defs[0]["rv"]["k"] in ("ref", "copy_for_deref", "rawptr"):
+                pl = defs[0]["rv"]["pl"]
+            else:
+                break
+        return pl["l"] if pl is not None else None
+    ins = [c for c in acc.calls if re.search(r"hash::map::HashMap::insert$", short(c.name))]
+    outer = [c for c in ins if "ColumnScope" in ((c.func.get("res_targs") or c.targs or [""])[0])]
+    scope_of = {}
+    for c in outer:
+        sc = None
+        a1 = c.args[1]
+        if a1.get("k") == "const":
+            m = re.search(r"ColumnScope::(\w+)", str(a1.get("v", "")))
+            sc = m.group(1) if m else None
+        else:
+            for o in F.origins(acc, a1, depth=4, through_calls=False):
+                if o.kind == "aggr" and o.place is not None:
+                    for _, st in F._assign_defs(acc).get(o.place["l"], []):
+                        if st["rv"]["k"] == "aggr" and (st["rv"].get("adt") or "").endswith("ColumnScope"):
+                            sc = st["rv"].get("variant")
+        r_ = root(acc, c.args[2]) if len(c.args) > 2 else None
+        if sc and r_ is not None:
+            scope_of[r_] = sc
+    if "GroupKey" not in scope_of.values():
+        R.note("C04.having-scope: no map inserted under ColumnScope::GroupKey in accept_group (HAVING row built differently); not instantiated")
+        return
+    n = 0
+    for c in ins:
+        if c in outer or len(c.args) < 3:
+            continue
+        sc = scope_of.get(root(acc, c.args[0]))
+        if sc not in ("GroupKey", "GroupValue"):
+            continue
+        n += 1
+        os_, work, seen_c = [], [c.args[2]], set()
+        while work and len(seen_c) < 40:
+            for o in F.origins(acc, work.pop(), depth=12):
+                os_.append(o)
+                if o.kind == "call" and id(o.call) not in seen_c and o.call.args and \
+                        re.search(r"^core::option::Option::(unwrap_or|unwrap_or_else|unwrap_or_default|unwrap|expect)$", short(o.call.name)):
+                    seen_c.add(id(o.call))
+                    work.append(o.call.args[0])
+        keypart = any(o.kind == "call" and re.search(r"Index<.*>>::index$|slice::<impl \[T\]>::get$|Vec::get$", short(o.call.name)) and
+                      any(x.kind == "arg" and acc.local_ty(x.arg).endswith("GroupKey") for x in F.origins(acc, o.call.args[0], depth=8)) for o in os_)
+        aggval = any(o.kind == "call" and re.search(r"hash::map::HashMap::get$|Index<&Q>>::index$", short(o.call.name)) and
+                     (o.call.func.get("res_targs") or o.call.targs or [])[:2] == ["usize", V] for o in os_)
+        if sc == "GroupKey" and (aggval or not keypart):
+            R.violation(rid, "accept_group|GroupKey", "accept_group puts %s into the GroupKey scope of the HAVING row: a name in HAVING that "
+                        "is a GROUP BY column can then resolve to that value instead of the group's own key"
+                        % ("an aggregate's value" if aggval else "something that is not a part of the group key"), [c.loc()])
+        elif sc == "GroupValue" and (keypart or not aggval):
+            R.violation(rid, "accept_group|GroupValue", "accept_group fills the GroupValue scope of the HAVING row from something else than the "
+                        "group's aggregate values", [c.loc()])
+        else:
+            R.ok(rid, "accept_group|%s" % sc, "filled from %s only" % ("group_key.0[i]" if sc == "GroupKey" else "group_value.get(i)"), c.loc())
+    if n == 0:
+        R.note("C04.having-scope: no insert into the scope maps found")
+
+
 def run(R):
     P = R.prog
     R.rule("C04.rect", "result table is rectangular: in every per-column loop over the group table exactly one value is pushed per group on every path")
@@ -384,6 +457,7 @@ def run(R):
                     if writer is None or any(x[0] == "len" for x in cand[2]):
                         writer = cand
     acc = R.need_fn(AGG + "accept_group")
+    _having_scopes(R, acc)
     reader = None
     for c in acc.calls:
         sn = short(c.name)
